@@ -6,29 +6,51 @@ META = {
             "(run.rs), Stack::to_continuation / restore_continuation (stack.rs) and RET, for every heap and state: "
             "(T05.1) the continuation created by call/cc holds exactly stack[0..=sp-2] (everything below the two "
             "operands), the current ep and bp, and ip = the instruction after the call, and the receiver is re-dispatched "
-            "with it as single argument; (T05.2) invoking it in ANY later state (any depth, any later evaluation, any heap) "
+            "with it as single argument (callcc_captures; callcc_step on whole instructions, naming the object "
+            "capturedCont s0); (T05.2) invoking it in ANY later state (any depth, any later evaluation, any heap) "
             "with n>=1 arguments restores that stack prefix and those registers, puts the last argument in acc and keeps "
             "the current heap — so mutations since capture stay visible; (T05.4) hence operands evaluated before the "
-            "capture keep their values; (T05.3) RET of the receiver's frame yields the same sp/ep/ip/bp as invoking k, so a "
-            "receiver that returns v and (k v) continue identically. Tied to the code by lock-step replay of every "
+            "capture keep their values. The property's first sentence as ONE theorem about executions of the machine "
+            "model (invoke_continues_as_if_returned, invoke_run_continues, invoke_run_same_result): with Resume s0 v h := "
+            "'the call/cc expression at s0 has just returned v, heap h' (s0 after its CALL: ip behind it, the two operands "
+            "popped, acc=v, s0's stack cells/ep/bp, heap h), one CALL/TCALL of k with last argument v from ANY state t yields "
+            "a state equal to Resume s0 v t.heap on all registers, the heap and the live stack cells 0..=sp, and the whole "
+            "rest of the run (any number of instructions, up to and including HALT, same value, same heap) is the run from "
+            "Resume, because step is a function of (live stack, registers, heap) (step_live_congruence, "
+            "runN_live_congruence). (T05.3, closed) no instruction of a WF-stack execution writes below the base of a live "
+            "frame (step_below, prefix_unwritten), so when the receiver returns v normally the state after its RET is "
+            "Resume s0 v h too — 'receiver returns v' and '(k v)' coincide (receiver_return_is_resume, "
+            "receiver_return_equals_invocation). Non-vacuity: a concrete machine that captures, returns, halts, and is "
+            "re-entered from a later evaluation (Lemmas/ContResumeToy.lean). Tied to the code by lock-step replay of every "
             "instruction of continuation-heavy sessions; the property itself is checked on scenario families with "
             "closed-form expected values (escape from depth, normal return, re-entry 1-3 times from later top-level "
             "forms, operands before/after the capture point, k stored in vectors/pairs and invoked from map/for-each "
             "callbacks, call/cc in loop tail position and inside another continuation's extent, apply of k and of call/cc, "
-            "zero/many arguments).",
-    "note": "Trusted: Lean kernel; axioms propext/Quot.sound/Classical.choice. The language-level statement ('continues as "
-            "if call/cc had returned v' for arbitrary programs) is the instruction-level theorems plus determinism of the "
-            "machine on (stack prefix, registers, heap); it is not stated over a source-level semantics (no CPS definitional "
-            "interpreter with call/cc is proved against the compiler). T05.3's former hypothesis (the receiver's frame header is intact at "
-            "RET) is now a theorem for every code object the bytecode verifier Vm/Verify.lean accepts "
-            "(receiver_frame_header_intact, receiver_return_is_invocation, ret_of_receiver_frame_verified, from WF-stack "
-            "preservation step_preserves), under the explicit hypothesis structure CodeLaws about the generic heap "
-            "(a parameter, not an axiom) and for receiver bodies that do not themselves invoke a continuation before "
-            "returning (Trace); that real compiled code verifies is checked by C04's bytecode-verifier stream, not proved "
-            "for the compiler model. The registers/sp are proved equal to the captured ones; that the stack cells below "
-            "the receiver's frame are unchanged at return time is not separately proved. Liveness of captured "
-            "continuations across collections (T05.5) belongs to C03's marker theorems.",
-    "technique": "Lean 4 proof (capture/restore lemmas over an abstract heap, any later state) + lock-step replay + scenario oracle with closed-form expectations",
+            "zero/many arguments, captures deeper than the initial stack capacity).",
+    "note": "Trusted: Lean kernel; axioms propext/Quot.sound/Classical.choice. All theorems are about the machine model "
+            "Vm.step (tied to run.rs by lock-step replay), not about a source-level semantics: 'continues as if call/cc had "
+            "returned v' is the statement 'continues as the machine does from Resume s0 v h'; the compiler model is "
+            "shown to emit for (call/cc e) exactly <code of e>; PUSH; PUSHIMM argc 1; <operator>; CALL|TCALL "
+            "(compile_callcc_site, T01.4 for one operand), which places s0/Resume in compiled code, but that running "
+            "<code of e> yields e's value (compiler correctness beyond C01's stage 1) and a CPS definitional semantics "
+            "with its simulation are NOT proved. Hypotheses, all explicit "
+            "parameters (none an axiom): CodeLaws (generic heap: code objects immutable and accepted by the bytecode "
+            "verifier, continuations are snapshots of WF states; checked by C04's bytecode-verifier stream) for the "
+            "WF-stack theorems; for step_live_congruence / the run theorems additionally LiveLaws (CLOSURE's and ENTER's "
+            "environment construction read live stack cells only), BpLive (a BasePointerOffset SOURCE operand designates a "
+            "cell <= sp: the bytecode verifier does not look at source offsets, so WF-stack alone does not give it — a "
+            "verified code object with PUSH bp+100 would read a stale cell; compile.rs only emits offsets of arguments; same "
+            "side condition as the heap-simulation lemmas, checked on every real state of C03's heap-simulation stream by Driver/SimGood 'bp-live'), and the capacity "
+            "clause of SideOK / hfit: when a continuation is invoked its stack copy fits the current capacity — stands for "
+            "'Stack never shrinks' in stack.rs (for re-entry within one evaluation it is a theorem of the model: "
+            "step_len_mono, invoke_within_run_continues_as_if_returned; across evaluations, and for the continuations "
+            "invoked later in a run, it is a hypothesis); the model reproduces the restore_continuation panic when it fails, and the "
+            "seeded changes that shrink the stack are caught by the deep re-entry scenarios, not by a theorem. "
+            "receiver_return_is_resume is stated for call/cc in operand position (CALL) and receivers that do not invoke a "
+            "continuation before returning (Trace); for call/cc in tail position (TCALL) capture and invocation theorems "
+            "hold as stated but the normal-return comparison is one instruction off (the RET after the TCALL) and not "
+            "stated. Liveness of captured continuations across collections (T05.5) belongs to C03's marker theorems.",
+    "technique": "Lean 4 proof (capture/restore lemmas over an abstract heap, any later state; write-set and live-read lemmas per instruction over the WF-stack invariant; run-level congruence) + lock-step replay + scenario oracle with closed-form expectations",
 }
 MODULE = "Marwood.Proofs.C05"
 THEOREMS = [
@@ -41,6 +63,23 @@ THEOREMS = [
     "Marwood.Proofs.C05.receiver_frame_header_intact",
     "Marwood.Proofs.C05.receiver_return_is_invocation",
     "Marwood.Proofs.C05.ret_of_receiver_frame_verified",
+    "Marwood.Vm.step_below",
+    "Marwood.Vm.Trace.prefix_unwritten",
+    "Marwood.Proofs.C05.prefix_unwritten",
+    "Marwood.Vm.callcc_step",
+    "Marwood.Proofs.C05.invoke_continues_as_if_returned",
+    "Marwood.Proofs.C05.receiver_return_is_resume",
+    "Marwood.Proofs.C05.receiver_return_equals_invocation",
+    "Marwood.Vm.step_stack",
+    "Marwood.Vm.step_live_congruence",
+    "Marwood.Vm.runN_live_congruence",
+    "Marwood.Proofs.C05.invoke_run_continues",
+    "Marwood.Proofs.C05.invoke_run_same_result",
+    "Marwood.Vm.step_len_mono",
+    "Marwood.Vm.runN_len_mono",
+    "Marwood.Proofs.C05.invoke_within_run_continues_as_if_returned",
+    "Marwood.Vm.one_operand_site",
+    "Marwood.Vm.compile_callcc_site",
 ]
 
 
